@@ -225,3 +225,28 @@ def handler_catches_exception(h):
         if isinstance(t, ast.Name) and t.id in ("Exception", "BaseException"):
             return True
     return False
+
+
+def reaching_defs(cfg, name, at):
+    """CFG nodes binding `name` from which `at` is reachable without another binding of it
+    (the entry node is included when `at` is reachable from entry with no binding at all)."""
+    binders = {n for n in cfg.nodes if name in node_binds(n)}
+    out = []
+    for src in list(binders) + [cfg.entry]:
+        seen = set()
+        work = [s for s, _ in src.succ]
+        found = False
+        while work and not found:
+            n = work.pop()
+            if n is at:
+                found = True
+                break
+            if n.id in seen:
+                continue
+            seen.add(n.id)
+            if n in binders:
+                continue
+            work.extend(s for s, _ in n.succ)
+        if found:
+            out.append(src)
+    return out
